@@ -891,6 +891,8 @@ class Interp:
                 return ("method", base, a)
         if isinstance(base, dict) and a in ("get", "items", "keys"):
             return ("method", base, a)
+        if isinstance(base, list) and a in ("append", "extend"):
+            return ("method", base, a)
         if isinstance(base, AtIndexed) and a in ("get", "set", "add"):
             return ("method", base, a)
         if isinstance(base, Closure) and a in ("defjvp", "defvjp"):
@@ -1005,6 +1007,14 @@ class Interp:
                 return list(base.items())
             if name == "keys":
                 return list(base.keys())
+        if isinstance(base, list):
+            # Python lists are mutable objects of the interpreted program as well
+            if name == "append":
+                base.append(args[0])
+                return None
+            if name == "extend":
+                base.extend(list(args[0]))
+                return None
         if isinstance(base, AtIndexed):
             if name == "get":
                 return base.arr.index(base.key)
